@@ -177,54 +177,75 @@ theorem inv_thread (s s' : St) (i : Nat) (t : Th) (hI : Inv s) (ht : s.thr[i]? =
           · intro tok h; rw [cS tok]; exact hsn tok h
           · intro _ _ hl; simp [hl] at hlive
           · intro tok h; rw [cS tok, cR tok] at h; exact hct tok h
-        · -- create the instance
-          rename_i hnd hnl
-          simp at hs; subst hs
-          obtain ⟨cP, cS0, cR0⟩ := mv ht .set
-          have cS : ∀ tok, (s.thr.set i ⟨tok0, m0, .set⟩).countP (setTok tok)
-              = s.thr.countP (setTok tok) + (if tok0 = tok then 1 else 0) := by
-            intro tok; have := cS0 tok; simpa using this
-          have cR : ∀ tok, (s.thr.set i ⟨tok0, m0, .set⟩).countP (regTok tok)
-              = s.thr.countP (regTok tok) + (if tok0 = tok then 1 else 0) := by
-            intro tok; have := cR0 tok; simpa using this
-          have hzero : s.thr.countP (regTok tok0) + s.constructed.count tok0 = 0 := by
-            apply Classical.byContradiction; intro hne
-            rcases hborn tok0 (by omega) with h | h
-            · exact hnl h
-            · exact hnd h
-          refine ⟨?_, hsafe, ?_, ?_, ?_, ?_, ?_, ?_, ?_⟩
-          all_goals (try dsimp only)
-          · intro x hx; simp; left; exact hsub x hx
-          · intro tok; rw [cR tok]
-            by_cases e : tok0 = tok
-            · subst e; rw [if_pos rfl]; omega
-            · rw [if_neg e]; have := honce tok; omega
-          · intro tok h; rw [cR tok] at h
-            by_cases e : tok0 = tok
-            · subst e; simp
-            · rw [if_neg e] at h
-              rcases hborn tok (by omega) with h' | h'
-              · simp [h']
-              · simp [h']
-          · intro tok h; rw [cR tok] at h
-            by_cases e : tok0 = tok
-            · subst e; simp
-            · rw [if_neg e] at h
-              have := hrl tok (by omega)
-              simp [this]
-          · intro tok h; rw [cS tok]
-            by_cases e : tok0 = tok
-            · subst e; exact absurd (hsub _ h) hnl
-            · rw [if_neg e]; have := hsn tok h; omega
-          · intro tok h
-            simp
-            refine ⟨hdj tok h, ?_⟩
-            intro e; subst e; exact hnd h
-          · intro _ _ hl; simp at hl
-          · intro tok h; rw [cS tok, cR tok] at h
-            by_cases e : tok0 = tok
-            · subst e; rw [if_pos rfl] at h; exact hct _ (by omega)
-            · rw [if_neg e] at h; exact hct _ (by omega)
+        · split at hs
+          · -- the token names no node of the tree: refused, the removal is scheduled again
+            simp at hs; subst hs
+            obtain ⟨cP, cS, cR⟩ := mv ht .fin
+            simp at cS cR
+            refine ⟨hsub, ?_, ?_, ?_, ?_, ?_, hdj, ?_, ?_⟩
+            all_goals (try dsimp only)
+            · intro h
+              have := hsafe h
+              have hl : s.live ≠ [] := by
+                intro e
+                cases hse : s.settled with
+                | nil => exact h hse
+                | cons a l => have := hsub a (by simp [hse]); simp [e] at this
+              simp [this, hl]
+            · intro tok; rw [cR tok]; exact honce tok
+            · intro tok h; rw [cR tok] at h; exact hborn tok h
+            · intro tok h; rw [cR tok] at h; exact hrl tok h
+            · intro tok h; rw [cS tok]; exact hsn tok h
+            · intro _ _ hl _ _ _ _; simp [hl]
+            · intro tok h; rw [cS tok, cR tok] at h; exact hct tok h
+          · -- create the instance
+            rename_i hnd hnl hnb
+            simp at hs; subst hs
+            obtain ⟨cP, cS0, cR0⟩ := mv ht .set
+            have cS : ∀ tok, (s.thr.set i ⟨tok0, m0, .set⟩).countP (setTok tok)
+                = s.thr.countP (setTok tok) + (if tok0 = tok then 1 else 0) := by
+              intro tok; have := cS0 tok; simpa using this
+            have cR : ∀ tok, (s.thr.set i ⟨tok0, m0, .set⟩).countP (regTok tok)
+                = s.thr.countP (regTok tok) + (if tok0 = tok then 1 else 0) := by
+              intro tok; have := cR0 tok; simpa using this
+            have hzero : s.thr.countP (regTok tok0) + s.constructed.count tok0 = 0 := by
+              apply Classical.byContradiction; intro hne
+              rcases hborn tok0 (by omega) with h | h
+              · exact hnl h
+              · exact hnd h
+            refine ⟨?_, hsafe, ?_, ?_, ?_, ?_, ?_, ?_, ?_⟩
+            all_goals (try dsimp only)
+            · intro x hx; simp; left; exact hsub x hx
+            · intro tok; rw [cR tok]
+              by_cases e : tok0 = tok
+              · subst e; rw [if_pos rfl]; omega
+              · rw [if_neg e]; have := honce tok; omega
+            · intro tok h; rw [cR tok] at h
+              by_cases e : tok0 = tok
+              · subst e; simp
+              · rw [if_neg e] at h
+                rcases hborn tok (by omega) with h' | h'
+                · simp [h']
+                · simp [h']
+            · intro tok h; rw [cR tok] at h
+              by_cases e : tok0 = tok
+              · subst e; simp
+              · rw [if_neg e] at h
+                have := hrl tok (by omega)
+                simp [this]
+            · intro tok h; rw [cS tok]
+              by_cases e : tok0 = tok
+              · subst e; exact absurd (hsub _ h) hnl
+              · rw [if_neg e]; have := hsn tok h; omega
+            · intro tok h
+              simp
+              refine ⟨hdj tok h, ?_⟩
+              intro e; subst e; exact hnd h
+            · intro _ _ hl; simp at hl
+            · intro tok h; rw [cS tok, cR tok] at h
+              by_cases e : tok0 = tok
+              · subst e; rw [if_pos rfl] at h; exact hct _ (by omega)
+              · rw [if_neg e] at h; exact hct _ (by omega)
   | set =>
     simp only [stepTh] at hs
     simp at hs; subst hs
@@ -445,8 +466,8 @@ theorem inv_step (s s' : St) (a : Act) (hI : Inv s) (h2 : Inv2 s) (hs : step s a
       have hzero : s.thr.countP (regTok tok) + s.constructed.count tok = 0 := by
         apply Classical.byContradiction; intro hne
         rcases hborn tok (by omega) with h | h
-        · exact hfresh.1 h
         · exact hfresh.2.1 h
+        · exact hfresh.2.2.1 h
       have cR : ∀ t, (s.thr ++ [(⟨tok, 0, .set⟩ : Th)]).countP (regTok t)
           = s.thr.countP (regTok t) + (if tok = t then 1 else 0) := by
         intro t
@@ -481,17 +502,92 @@ theorem inv_step (s s' : St) (a : Act) (hI : Inv s) (h2 : Inv2 s) (hs : step s a
           simp [this]
       · intro t h; rw [cS t]
         by_cases e : tok = t
-        · subst e; exact absurd (hsub _ h) hfresh.1
+        · subst e; exact absurd (hsub _ h) hfresh.2.1
         · rw [if_neg e]; have := hsn t h; omega
       · intro t h
         simp
         refine ⟨hdj t h, ?_⟩
-        intro e; subst e; exact hfresh.2.1 h
+        intro e; subst e; exact hfresh.2.2.1 h
       · intro _ _ hl; simp at hl
       · intro t h; rw [cS t, cR t] at h
         by_cases e : tok = t
         · subst e; rw [if_pos rfl] at h; exact hct _ (by omega)
         · rw [if_neg e] at h; exact hct _ (by omega)
+  | ctorFail i =>
+    obtain ⟨hsub, hsafe, honce, hborn, hrl, hsn, hdj, hrel, hct⟩ := hI
+    simp only [step] at hs
+    split at hs
+    · rename_i t ht
+      obtain ⟨tok0, m0, pc0⟩ := t
+      split at hs
+      · rename_i hpc
+        simp only at hpc; subst hpc
+        simp at hs; subst hs
+        obtain ⟨cP, cS0, cR0⟩ := mv ht .fin
+        have cS : ∀ tok, (s.thr.set i ⟨tok0, m0, .fin⟩).countP (setTok tok) = s.thr.countP (setTok tok) := by
+          intro tok; have := cS0 tok; simpa using this
+        have cR : ∀ tok, (s.thr.set i ⟨tok0, m0, .fin⟩).countP (regTok tok) + (if tok0 = tok then 1 else 0)
+            = s.thr.countP (regTok tok) := by
+          intro tok; have := cR0 tok; simpa using this
+        have hc : ∀ tok, (s.constructed ++ [tok0]).count tok
+            = s.constructed.count tok + (if tok0 = tok then 1 else 0) := by
+          intro tok
+          by_cases e : tok0 = tok
+          · subst e; simp [List.count_append]
+          · have e' : ¬ tok = tok0 := fun h => e h.symm
+            simp [List.count_append, List.count_singleton, e, e']
+        have hpos : 0 < s.thr.countP (regTok tok0) := by
+          have := cR tok0; rw [if_pos rfl] at this; omega
+        have hlive : tok0 ∈ s.live := hrl tok0 hpos
+        have hzero : (s.thr.set i ⟨tok0, m0, .fin⟩).countP (regTok tok0) = 0 := by
+          have := cR tok0; rw [if_pos rfl] at this; have := honce tok0; omega
+        refine ⟨?_, ?_, ?_, ?_, ?_, ?_, ?_, ?_, ?_⟩
+        all_goals (try dsimp only)
+        · intro x hx
+          simp at hx
+          simp [hsub x hx.1, hx.2]
+        · intro h
+          have hne : s.settled ≠ [] := by intro e; simp [e] at h
+          have hs := hsafe hne
+          obtain ⟨x, hx⟩ := List.exists_mem_of_ne_nil _ h
+          simp at hx
+          simp [hs]
+          exact ⟨x, hsub x hx.1, hx.2⟩
+        · intro tok; rw [hc tok]; have := cR tok; have := honce tok
+          by_cases e : tok0 = tok
+          · subst e; rw [if_pos rfl] at *; omega
+          · rw [if_neg e] at *; omega
+        · intro tok h
+          by_cases e : tok = tok0
+          · right; simp [e]
+          · have e' : ¬ tok0 = tok := fun h => e h.symm
+            rw [hc tok, if_neg e'] at h; have := cR tok; rw [if_neg e'] at this
+            rcases hborn tok (by omega) with h' | h'
+            · left; simp [h', e]
+            · right; simp [h']
+        · intro tok h
+          by_cases e : tok = tok0
+          · subst e; omega
+          · have e' : ¬ tok0 = tok := fun h => e h.symm
+            have := cR tok; rw [if_neg e'] at this
+            have := hrl tok (by omega)
+            simp [this, e]
+        · intro tok h; simp at h; rw [cS tok]; exact hsn tok h.1
+        · intro tok h
+          simp at h
+          rcases h with h | h
+          · intro hc'; simp at hc'; exact hdj tok h hc'.1
+          · subst h; simp
+        · intro _ _ hl _ _ _ _; simp at hl; simp; left; exact hl
+        · intro tok h
+          by_cases e : tok = tok0
+          · subst e; omega
+          · have e' : ¬ tok0 = tok := fun h => e h.symm
+            rw [cS tok] at h; have := cR tok; rw [if_neg e'] at this
+            have := hct tok (by omega)
+            simp [this, e]
+      · simp at hs
+    · simp at hs
 
 theorem lookupStep_frame (s : St) (i : Nat) (t : Th) :
     (lookupStep s i t).doneToks = s.doneToks ∧ (lookupStep s i t).present = s.present ∧
@@ -514,7 +610,9 @@ theorem stepTh_frame (s s' : St) (i : Nat) (t : Th) (hs : stepTh s i t = some s'
     · simp at hs
     · split at hs
       · simp at hs; subst hs; exact ⟨rfl, id⟩
-      · split at hs <;> (simp at hs; subst hs; exact ⟨rfl, id⟩)
+      · split at hs
+        · simp at hs; subst hs; exact ⟨rfl, id⟩
+        · split at hs <;> (simp at hs; subst hs; exact ⟨rfl, id⟩)
   | set => simp only [stepTh] at hs; simp at hs; subst hs; exact ⟨rfl, fun _ => rfl⟩
   | bind => simp only [stepTh] at hs; simp at hs; subst hs; exact ⟨rfl, id⟩
 
@@ -554,6 +652,20 @@ theorem inv2_step (s s' : St) (a : Act) (h2 : Inv2 s) (hs : step s a = some s') 
     · simp at hs; subst hs
       exact ⟨fun h => by rw [flushAll_no_parked] at h; omega, by simp⟩
     · simp at hs
+  | ctorFail i =>
+    simp only [step] at hs
+    split at hs
+    · rename_i t ht
+      obtain ⟨t0, m0, pc0⟩ := t
+      split at hs
+      · rename_i hpc
+        simp only at hpc; subst hpc
+        have c := (mv ht .fin).1 .parked
+        simp at c
+        simp at hs; subst hs
+        exact ⟨fun h => by rw [c] at h; exact hpk h, fun h => by rw [c]; exact hrq h⟩
+      · simp at hs
+    · simp at hs
   | thread i =>
     simp only [step] at hs
     split at hs
@@ -591,8 +703,11 @@ theorem inv2_step (s s' : St) (a : Act) (h2 : Inv2 s) (hs : step s a = some s') 
           · split at hs
             · simp at hs; subst hs
               exact ⟨fun h => by rw [c .fin (by simp)] at h; exact hpk h, fun h => by rw [c .fin (by simp)]; exact hrq h⟩
-            · simp at hs; subst hs
-              exact ⟨fun h => by rw [c .set (by simp)] at h; exact hpk h, fun h => by rw [c .set (by simp)]; exact hrq h⟩
+            · split at hs
+              · simp at hs; subst hs
+                exact ⟨fun h => by rw [c .fin (by simp)] at h; exact hpk h, fun h => by rw [c .fin (by simp)]; exact hrq h⟩
+              · simp at hs; subst hs
+                exact ⟨fun h => by rw [c .set (by simp)] at h; exact hpk h, fun h => by rw [c .set (by simp)]; exact hrq h⟩
       | set =>
         simp only [stepTh] at hs; simp at hs; subst hs
         exact ⟨fun h => by rw [flushAll_no_parked] at h; omega, by simp⟩
@@ -655,6 +770,13 @@ theorem c11_done_monotone (s s' : St) (a : Act) (tok : Nat) (hs : step s a = som
     simp only [step] at hs
     split at hs
     · simp at hs; subst hs; exact hd
+    · simp at hs
+  | ctorFail i =>
+    simp only [step] at hs
+    split at hs
+    · split at hs
+      · simp at hs; subst hs; simp [hd]
+      · simp at hs
     · simp at hs
 
 theorem c11_done_not_listed (as : List Act) (tok : Nat) (hd : tok ∈ (run {} as).doneToks) :
@@ -750,6 +872,13 @@ theorem c11_grace (s s' : St) (a : Act) (hs : step s a = some s') (hp : s.presen
     simp only [step] at hs
     split at hs
     · simp at hs; subst hs; exact hp
+    · simp at hs
+  | ctorFail i =>
+    simp only [step] at hs
+    split at hs
+    · split at hs
+      · simp at hs; subst hs; exact hp
+      · simp at hs
     · simp at hs
 
 /-- **released afterwards**: once no instance is listed any more and no arrival is inside the
@@ -941,6 +1070,266 @@ private def demo2 : List Act :=
 example : (run {} demo2).thr[1]? = some ⟨2, 5, .bind⟩ ∧ (run {} demo2).doneToks = [1] ∧
     (run {} demo2).live = [2] ∧ (run {} demo2).present = true ∧ (run {} demo2).armed = false ∧
     step (run {} demo2) (.done 2) = none := by decide
+
+/-! ### tokens that name no node of the tree, constructors that fail (round 5)
+
+Two ways a tree was never released, both reproduced on the real code
+(`notes/probes/onet_c11_tree_pinned_probe_test.go.txt`) and repaired in /repo: a message whose token carries the
+tree's id and an unknown node id cancelled the scheduled removal (its lookup) and returned on the error path
+without scheduling it again; and `CreateProtocol` left the node of an instance whose constructor failed listed
+for ever.  `rel` (the invariant behind `c11_released`) did not close for the first; the second left
+`c11_released` vacuous (`live` never empty), which `c11_listed_built_or_building` now excludes. -/
+
+/-- **a message for a node that is not in the tree is refused without a trace**: the `transmitMux` region
+for such a token changes neither the listed instances, nor the done marks, nor the constructor log, nor what
+was handed over, nor the tree — and when no instance is listed, the removal its lookup cancelled is
+scheduled again. -/
+theorem c11_bad_token_refused (s s' : St) (i : Nat) (t : Th) (ht : s.thr[i]? = some t)
+    (hpc : t.pc = .found) (hb : badTok t.tok = true) (hnd : t.tok ∉ s.doneToks) (hnl : t.tok ∉ s.live)
+    (hs : step s (.thread i) = some s') :
+    s'.live = s.live ∧ s'.constructed = s.constructed ∧ s'.handed = s.handed ∧
+    s'.doneToks = s.doneToks ∧ s'.present = s.present ∧ (s.live = [] → s'.armed = true) := by
+  simp only [step, ht] at hs
+  obtain ⟨t0, m0, pc0⟩ := t
+  simp at hpc; subst hpc
+  simp only [stepTh] at hs
+  split at hs
+  · simp at hs
+  · simp at hnd hnl hb
+    simp [hnd, hnl, hb] at hs; subst hs; simp
+    intro h; exact .inl h
+
+/-- **the code before the repair never releases the tree**: instance 1 runs and finishes (removal scheduled), a
+message for a node that is not in the tree arrives during the grace period: its lookup cancels the removal and
+nothing schedules it again — no instance, no thread, no removal: the timer never fires.  The code as it is
+schedules the removal again and the timer releases the tree. -/
+theorem c11_old_bad_token_pins_tree :
+    let sch : List Act := [.localStart 1, .thread 0, .thread 0, .done 1, .arrive 1000 5, .thread 1, .thread 1]
+    ((runOld5 {} sch).used = true ∧ (runOld5 {} sch).present = true ∧ (runOld5 {} sch).live = [] ∧
+      (runOld5 {} sch).armed = false ∧ (runOld5 {} sch).thr.all (fun t => t.pc == .fin) = true ∧
+      step (runOld5 {} sch) .expire = none) ∧
+    ((run {} sch).armed = true ∧ (run {} (sch ++ [.expire])).present = false) := by decide
+
+/-- every listed instance has been built or is being built: its creation has completed, or a thread is inside it -/
+def Listed (s : St) : Prop := ∀ tok ∈ s.live, tok ∈ s.settled ∨ 0 < s.thr.countP (regTok tok)
+
+theorem listed_step (s s' : St) (a : Act) (hI : Inv s) (hL : Listed s) (hs : step s a = some s') : Listed s' := by
+  cases a with
+  | arrive tok m =>
+    simp [step] at hs; subst hs
+    intro x hx; rcases hL x hx with h | h
+    · exact .inl h
+    · right; show 0 < List.countP (regTok x) (s.thr ++ [_]); rw [List.countP_append]; omega
+  | peerReq => simp [step] at hs; subst hs; exact hL
+  | doneRefused tok =>
+    simp only [step] at hs
+    split at hs
+    · simp at hs; subst hs; exact hL
+    · simp at hs
+  | expire =>
+    simp only [step] at hs
+    split at hs
+    · simp at hs; subst hs; exact hL
+    · simp at hs
+  | treeResp =>
+    simp only [step] at hs
+    split at hs
+    · simp at hs; subst hs
+      intro x hx; rcases hL x hx with h | h
+      · exact .inl h
+      · right; show 0 < (flushAll s.thr).countP (regTok x); rw [countP_flushAll (flush_regTok x)]; exact h
+    · simp at hs
+  | done tok =>
+    simp only [step] at hs
+    split at hs
+    · simp at hs; subst hs
+      intro x hx
+      simp at hx
+      rcases hL x hx.1 with h | h
+      · left; simp [h, hx.2]
+      · exact .inr h
+    · split at hs
+      · simp at hs; subst hs; exact hL
+      · simp at hs
+  | localStart tok =>
+    simp only [step] at hs
+    split at hs
+    · simp at hs
+    · simp at hs; subst hs
+      intro x hx
+      simp at hx
+      show x ∈ s.settled ∨ 0 < List.countP (regTok x) (s.thr ++ [_])
+      rw [List.countP_append]
+      rcases hx with hx | hx
+      · rcases hL x hx with h | h
+        · exact .inl h
+        · right; omega
+      · subst hx; right; simp [regTok]
+  | ctorFail i =>
+    simp only [step] at hs
+    split at hs
+    · rename_i t ht
+      obtain ⟨tok0, m0, pc0⟩ := t
+      split at hs
+      · rename_i hpc
+        simp only at hpc; subst hpc
+        simp at hs; subst hs
+        intro x hx
+        simp at hx
+        have cR := (mv ht .fin).2.2 x
+        have e' : ¬ tok0 = x := fun h => hx.2 h.symm
+        simp [e'] at cR
+        rcases hL x hx.1 with h | h
+        · left; simp [h, hx.2]
+        · right; show 0 < (s.thr.set i ⟨tok0, m0, .fin⟩).countP (regTok x); omega
+      · simp at hs
+    · simp at hs
+  | thread i =>
+    simp only [step] at hs
+    split at hs
+    · rename_i t ht
+      obtain ⟨tok0, m0, pc0⟩ := t
+      have look : ∀ pc0, (pc0 = .lookup ∨ pc0 = .flushed) → s.thr[i]? = some ⟨tok0, m0, pc0⟩ →
+          Listed (lookupStep s i ⟨tok0, m0, pc0⟩) := by
+        intro pc0 hpc ht
+        have hns : pc0 ≠ .set ∧ pc0 ≠ .bind := by rcases hpc with rfl | rfl <;> simp
+        unfold lookupStep
+        split
+        · intro x hx
+          have cR := (mv ht .found).2.2 x
+          simp [hns.1, hns.2] at cR
+          rcases hL x hx with h | h
+          · exact .inl h
+          · right; show 0 < (s.thr.set i ⟨tok0, m0, .found⟩).countP (regTok x); omega
+        · intro x hx
+          have cR := (mv ht .parked).2.2 x
+          simp [hns.1, hns.2] at cR
+          rcases hL x hx with h | h
+          · exact .inl h
+          · right; show 0 < (s.thr.set i ⟨tok0, m0, .parked⟩).countP (regTok x); omega
+      cases pc0 with
+      | lookup => simp only [stepTh] at hs; simp at hs; subst hs; exact look .lookup (.inl rfl) ht
+      | flushed => simp only [stepTh] at hs; simp at hs; subst hs; exact look .flushed (.inr rfl) ht
+      | parked => simp [stepTh] at hs
+      | fin => simp [stepTh] at hs
+      | found =>
+        have keep : ∀ s1 : St, s1.live = s.live → s1.settled = s.settled → s1.thr = s.thr.set i ⟨tok0, m0, .fin⟩ →
+            Listed s1 := by
+          intro s1 e1 e2 e3 x hx
+          rw [e1] at hx; rw [e2, e3]
+          have cR := (mv ht .fin).2.2 x
+          simp at cR
+          rcases hL x hx with h | h
+          · exact .inl h
+          · right; omega
+        simp only [stepTh] at hs
+        split at hs
+        · simp at hs
+        · split at hs
+          · simp at hs; subst hs; exact keep _ rfl rfl rfl
+          · split at hs
+            · simp at hs; subst hs; exact keep _ rfl rfl rfl
+            · split at hs
+              · simp at hs; subst hs; exact keep _ rfl rfl rfl
+              · simp at hs; subst hs
+                intro x hx
+                simp at hx
+                have cR := (mv ht .set).2.2 x
+                simp at cR
+                show x ∈ s.settled ∨ 0 < (s.thr.set i ⟨tok0, m0, .set⟩).countP (regTok x)
+                rcases hx with hx | hx
+                · rcases hL x hx with h | h
+                  · exact .inl h
+                  · right; omega
+                · subst hx; right; simp at cR; omega
+      | set =>
+        simp only [stepTh] at hs; simp at hs; subst hs
+        intro x hx
+        have cR := (mv ht .bind).2.2 x
+        simp at cR
+        show x ∈ (if tok0 ∈ s.live then s.settled ++ [tok0] else s.settled) ∨
+          0 < (flushAll (s.thr.set i ⟨tok0, m0, .bind⟩)).countP (regTok x)
+        rw [countP_flushAll (flush_regTok x)]
+        rcases hL x hx with h | h
+        · left; split <;> simp [h]
+        · right; omega
+      | bind =>
+        simp only [stepTh] at hs; simp at hs; subst hs
+        intro x hx
+        have cR := (mv ht .fin).2.2 x
+        simp at cR
+        show x ∈ s.settled ∨ 0 < (s.thr.set i ⟨tok0, m0, .fin⟩).countP (regTok x)
+        rcases hL x hx with h | h
+        · exact .inl h
+        · by_cases e : tok0 = x
+          · subst e
+            left
+            apply hI.ctor
+            have hb : 0 < s.thr.countP (bindTok tok0) := by
+              rw [List.countP_pos_iff]
+              exact ⟨⟨tok0, m0, .bind⟩, List.mem_of_getElem? ht, by simp [bindTok]⟩
+            have := reg_eq_set_add_bind tok0 s.thr
+            omega
+          · simp [e] at cR; right; omega
+    · simp at hs
+
+theorem listed_run (as : List Act) : Listed (run {} as) := by
+  suffices h : ∀ (as : List Act) (s : St), Inv s → Inv2 s → Listed s → Listed (run s as) from
+    h as {} inv_init inv2_init (by intro x hx; simp at hx)
+  intro as
+  induction as with
+  | nil => intro s _ _ h; exact h
+  | cons a as ih =>
+    intro s hI h2 hL
+    simp only [run]
+    split
+    · rename_i s' hs
+      exact ih s' (inv_step s s' a hI h2 hs) (inv2_step s s' a h2 hs) (listed_step s s' a hI hL hs)
+    · exact ih s hI h2 hL
+
+/-- **nobody is listed without being built**: in every reachable state a listed instance either has completed its
+creation (it can be used, and can declare itself done) or a thread is inside its creation right now — so once no
+thread is inside a creation, every listed instance is a complete one: a constructor that failed (for an arrival as
+for a local start) leaves nothing listed behind that would keep the tree for ever. -/
+theorem c11_listed_built_or_building (as : List Act) (tok : Nat) (h : tok ∈ (run {} as).live) :
+    tok ∈ (run {} as).settled ∨ ∃ t ∈ (run {} as).thr, (t.pc = .set ∨ t.pc = .bind) ∧ t.tok = tok := by
+  rcases listed_run as tok h with h | h
+  · exact .inl h
+  · right
+    rw [List.countP_pos_iff] at h
+    obtain ⟨t, ht, hp⟩ := h
+    exact ⟨t, ht, by simpa [regTok] using hp⟩
+
+/-- **a failed constructor leaves a finished token behind**: the node is unlisted and marked done, nothing is handed
+over, the tree stays for now (the grace period runs if no other instance uses it); later messages for the token
+are dropped (`c11_late_dropped`) and the constructor is never called for it again (`c11_constructed_once`). -/
+theorem c11_failed_constructor_cleans_up (s s' : St) (i : Nat) (t : Th) (ht : s.thr[i]? = some t) (hpc : t.pc = .bind)
+    (hs : step s (.ctorFail i) = some s') :
+    t.tok ∉ s'.live ∧ t.tok ∈ s'.doneToks ∧ s'.handed = s.handed ∧ s'.present = s.present ∧
+    (∀ x, x ≠ t.tok → (x ∈ s'.live ↔ x ∈ s.live)) ∧ (s'.live = [] → s'.armed = true) := by
+  simp only [step, ht, hpc, if_true] at hs
+  simp at hs; subst hs
+  refine ⟨by simp, by simp, rfl, rfl, ?_, ?_⟩
+  · intro x hx; simp [hx]
+  · intro h; simp at h; simp; left; exact h
+
+/-- **`CreateProtocol` as it was left the node listed for ever**: the constructor of a local start fails; the node stays
+listed although every thread has ended and nobody holds the instance (the caller got the error): no removal is
+scheduled, the tree is never released.  The code as it is unlists it and the tree goes after the grace period. -/
+theorem c11_old_failed_local_start_stays_listed :
+    let sch : List Act := [.localStart 1, .thread 0, .ctorFail 0]
+    ((runOld5 {} sch).live = [1] ∧ (runOld5 {} sch).thr.all (fun t => t.pc == .fin) = true ∧
+      (runOld5 {} sch).armed = false ∧ step (runOld5 {} sch) .expire = none) ∧
+    ((run {} sch).live = [] ∧ (run {} sch).doneToks = [1] ∧ (run {} sch).armed = true ∧
+      (run {} (sch ++ [.expire])).present = false) := by decide
+
+/-- non-vacuity: the constructor of an arrival fails while another instance is listed (tree stays, not armed); a late
+message for the failed token is dropped; a bad-token message while an instance is listed does not arm the removal -/
+example :
+    let sch : List Act := [.localStart 1, .thread 0, .thread 0, .arrive 2 5, .thread 1, .thread 1, .thread 1, .ctorFail 1,
+      .arrive 2 6, .thread 2, .thread 2, .arrive 1000 7, .thread 3, .thread 3]
+    (run {} sch).live = [1] ∧ (run {} sch).doneToks = [2] ∧ (run {} sch).constructed = [1, 2] ∧ (run {} sch).handed = [] ∧
+    (run {} sch).armed = false ∧ (run {} sch).present = true := by decide
 
 /-! ## the tree store on its own, for all tree ids at once (`Model/C11Store.lean`) -/
 namespace Store
@@ -1155,7 +1544,8 @@ def treeOps (s : C11.St) : C11.Act → List VOp
       | some t => match t.pc with
           | .lookup => [.refresh]                       -- `getAndRefresh`
           | .flushed => [.refresh]
-          | .found => if t.tok ∈ s.doneToks ∧ s.live = [] then [.remove] else []   -- late message: `cleanTreeStorage`
+          -- late message, or a token that names no node of the tree: `cleanTreeStorage`
+          | .found => if (t.tok ∈ s.doneToks ∨ badTok t.tok = true) ∧ s.live = [] then [.remove] else []
           | .set => [.set]                              -- `treeStorage.Set`
           | _ => []
       | none => []
@@ -1169,6 +1559,9 @@ def treeOps (s : C11.St) : C11.Act → List VOp
   | .peerReq => []                                       -- `treeStorage.Get`: no refresh
   | .doneRefused _ => []
   | .treeResp => [.set]                                  -- `RegisterTree`
+  | .ctorFail i => match s.thr[i]? with                  -- `nodeDelete`: `cleanTreeStorage`
+      | some t => if t.pc = .bind ∧ s.live.filter (· != t.tok) = [] then [.remove] else []
+      | none => []
 
 def cview (s : C11.St) : View := { present := s.present, armed := s.armed }
 
@@ -1236,7 +1629,18 @@ theorem c11_model_uses_store_ops (s s' : C11.St) (a : C11.Act) (h : C11.step s a
             simp only [cview]
             split <;> simp_all [vstep]
           · rename_i hd
-            split at h <;> (simp at h; subst h; simp [cview, hd])
+            split at h
+            · rename_i hlive
+              simp at h; subst h; simp only [cview, hd, false_or]
+              have hl : ¬ (badTok t0 = true ∧ s.live = []) := fun hc => by simp [hc.2] at hlive
+              simp [hl]
+            · split at h
+              · rename_i hb
+                simp at h; subst h
+                simp only [cview]
+                split <;> simp_all [vstep]
+              · rename_i hb
+                simp at h; subst h; simp [cview, hd, hb]
       | set => simp only [C11.stepTh] at h; simp at h; subst h; simp [vstep, cview]
       | bind => simp only [C11.stepTh] at h; simp at h; subst h; simp [cview]
       | parked => simp [C11.stepTh] at h
@@ -1246,6 +1650,23 @@ theorem c11_model_uses_store_ops (s s' : C11.St) (a : C11.Act) (h : C11.step s a
     simp only [C11.step] at h
     split at h
     · simp at h; subst h; simp [treeOps, vstep, cview]
+    · simp at h
+  | ctorFail i =>
+    simp only [C11.step] at h
+    split at h
+    · rename_i t ht
+      simp only [treeOps, ht]
+      split at h
+      · rename_i hpc
+        simp at h; subst h
+        simp only [cview, hpc, true_and]
+        by_cases hl : s.live.filter (· != t.tok) = []
+        · have hl' : ∀ a ∈ s.live, a = t.tok := by simpa using hl
+          simp [hl, vstep]
+          exact .inl hl'
+        · have hl' : ¬ ∀ a ∈ s.live, a = t.tok := by simpa using hl
+          simp [hl, hl']
+      · simp at h
     · simp at h
 
 /-- **the routine as it was before repair 2e39a89 deletes a tree that was just stored**: a removal is
